@@ -513,6 +513,24 @@ def _run_region(F, R, I, fn, args, st, region, skip=()):
     return outs, n_ok, n_bad
 
 
+@rule("IS5", ["C16"], floor=1,
+      doc="a wrong record never makes the flush panic: update_info_sector, run on an arbitrary volume state (any free count, any next-free hint - the values read from the medium at mount are kept as they are until the first allocation), reaches no explicit panic / failed assertion (interval abstract interpretation; the cache and the slice stores are havocked)")
+def is5(F, R):
+    from .absval import TOP
+    fn = F.fn("fat::volume::FatVolume::update_info_sector")
+    I = Interp(F, mode="iv", max_paths=400)
+    st = State()
+    selfp = I.heap_alloc(st, TOP)
+    cache = I.heap_alloc(st, TOP)
+    # the cache is the BC rules' business: its calls succeed with some block or fail
+    from .stdmodel import ok as _ok, err as _err
+    for nm_ in ("read", "read_mut", "blank_mut", "write_back", "write_back_with_duplicate"):
+        I.models["blockdevice::BlockCache::" + nm_] = lambda I_, st_, a_, ctx: [(_ok(TOP), st_), (_err(TOP), st_.fork())]
+    skip = (("update_info_sector", "index:", "the block is the cache's 512-byte buffer (BC rules); the field offsets are IS2's"),)
+    _o, a, b = _run_region(F, R, I, fn, [selfp, cache], st, "update_info_sector", skip=skip)
+    R.ok(fn, "evaluated", "%d obligations discharged, %d reported; %d result state(s)" % (a, b, len(_o)))
+
+
 @rule("LF1", ["C17"], floor=30,
       doc="decoding never panics on arbitrary bytes: every assertion / slice / unwrap obligation in OnDiskDirEntry::{is_end,is_valid,is_lfn,lfn_contents,matches,get_entry,first_cluster_*}, Timestamp::from_fat, Attributes::*, ShortFileName::csum, SeqState::update, LfnBuffer::{new,clear,as_str,push} and the slot loops of iterate_fat16/32 is discharged for a 32-byte slot of arbitrary contents, arbitrary 13-unit fragments and any buffer size (interval abstract interpretation; the byte-store loop of push by the LF3 idiom, the staging vector by LF2)")
 def lf1(F, R):
